@@ -139,7 +139,11 @@ class PITFrozenDilationMasker(PITDilationMasker):
             rf,
             trainable=False,
         )
-        self.gamma.requires_grad = False
+        # a frozen mask is a constant: it is stored as a buffer, so that it is never listed among
+        # the (NAS) parameters and can neither become trainable nor receive gradients
+        gamma = self.gamma.detach()
+        del self.gamma
+        self.register_buffer('gamma', gamma)
 
     @property
     def trainable(self) -> bool:
